@@ -133,6 +133,16 @@ class Calculation(UnaryOperation):
                     f"{set(self.columns_required - current.target.columns)}",
                 ),
             )
+        if self.tag in current.target.columns:
+            # A column with the same tag was dropped by a projection between
+            # here and there; the calculation cannot be inserted upstream of
+            # the point where that column still exists.
+            return UnaryCommutator(
+                first=None,
+                second=current.operation,
+                done=False,
+                messages=(f"{current.target} already has a column {self.tag}",),
+            )
         # If we commute a calculation before a projection, the
         # projection also needs to include the calculated column.
         return UnaryCommutator(
